@@ -1344,6 +1344,17 @@ TERMINAL_SESSIONS = [
 ]
 
 
+STALE_EP_SESSIONS = [
+    # a double step that is not answered by the en-passant capture, then quiet moves: the target must be gone
+    "position fen n5bk/3p3p/4p3/4P3/8/8/1B6/6K1 b - - 0 1 moves d7d5 g1f1 a8b6",
+    "position startpos moves e2e4 g8f6 e4e5 d7d5 b1c3 f6g8",
+    "position startpos moves e2e4 g8f6 e4e5 d7d5 b1c3 f6g8 g1f3 b8c6",
+    "position fen 4k3/8/8/8/3p4/8/4P3/4K3 w - - 0 1 moves e2e4 e8d8 e1d1",
+    "position fen 4k3/8/8/8/3p4/8/4P3/4K3 w - - 0 1 moves e2e4 e8d8 e1d1 d8e8",
+    "position fen 1n2k3/3p4/8/4P3/8/8/8/1N2K3 b - - 0 1 moves d7d5 b1c3 b8c6",
+]
+
+
 def forced_root_sweep(o, kmax=40):
     """in-process searches (virtual clock, expiry index 0..kmax) on roots with exactly one legal move and a few
     ordinary ones: whatever the expiry point, exactly the moves of the root may be handed back and at least one is"""
@@ -1432,6 +1443,19 @@ def run_c03(o, tier, rng, prep):
     o.oblige("exactly one legal, well-formed bestmove per go, along go chains, on the real binary (%d go commands)" % o.evaluations, ok)
     ok3 = corner_capture_sessions(o, tier, rng)
     o.oblige("go after a move list that captures an unmoved rook on its corner (castling rights of the text applier)", ok3)
+    # what the search can choose from after a position command is exactly the legal moves of the position the
+    # command describes (a stale en-passant target or castling right left by the text applier shows up here)
+    rcases = ["roots\t" + pos_cmd(st_, mv_) for st_, mv_, _, _ in pos] + ["roots\t" + c for c in STALE_EP_SESSIONS]
+    rres = V.run_cases(rcases)
+    rmm, rsm = V.compare(rres)
+    o.evaluations += len(rres)
+    for r in rsm[:3]:
+        o.violation("input", "after `%s` the engine chooses from %s, the legal moves are %s" % (r["case"].split("\t")[1][:200], (r.get("P") or "")[6:], (r.get("S") or "")[6:]),
+                    {"case": r["case"], "impl": r.get("P"), "spec": r.get("S")})
+    for r in rmm[:2]:
+        if not rsm:
+            o.violation("corr", "root moves after a position command: model and implementation differ on %s" % r["case"][:200], {"correspondence": "roots", "case": r["case"], "impl": r.get("I"), "model": r.get("M")})
+    o.oblige("after every position command the search chooses among exactly the legal moves (%d commands)" % len(rres), not rsm and not rmm)
     okf = forced_root_sweep(o)
     o.oblige("a move of the root is handed back for every expiry index, also when the root has exactly one legal move", okf)
     ok2 = go_chain_corpus(o, tier, rng)
